@@ -455,9 +455,11 @@ CHECK = Check(
     P, 'exploration',
     rule=('Hypothesis-generated histories of 2-7 operations over one pool (run with k batches, run with a partial last batch, fresh sampler '
           'adopting the pool context, remove a store, replace a summary / the distance with the documented store removal, close+reopen an '
-          'on-disk pool, attempts with a wrong batch_size / seed) x stored set = any non-empty subset of {simulator, noise simulator, '
+          'on-disk pool, attempts with a wrong batch_size / seed incl. the literal seed 0) x stored set = any non-empty subset of {simulator, noise simulator, '
           'summaries, discrepancy} optionally plus all parameters x in-memory / on-disk pools x models with an optional stochastic node '
-          'that draws after the simulator. Non-trivial = a run that found at least one needed batch in the pool and needed at least one more.'),
+          'that draws after the simulator. Non-trivial = a run that found at least one needed batch in the pool and needed at least one more. '
+          'smc part: 2-4 SMC runs (n 3-8, 1-2 thresholds or quantiles, at most two distinct configurations per history) over one in-memory / on-disk pool '
+          'storing the simulator and/or summaries/discrepancy, optionally all parameters, optional close+reopen; non-trivial = a re-use with the same configuration.'),
     parts=[Part('histories', run_case, strategy=strat, examples={'quick': 300, 'thorough': 12000}),
            Part('smc', run_smc, strategy=strat_smc, examples={'quick': 96, 'thorough': 2400}, shards={'quick': 8, 'thorough': 16})],
     assumptions=['Rejection with an n_sim objective drives the pool (batch counts are then a function of the configuration)',
